@@ -9,7 +9,11 @@ ticks within the bounds, that two mutated guards do NOT (controls), and emits th
 
 Binding: every transition of the graph (edge cover) and seeded random walks are input histories for a real
 modeling.EventDrivenComponent on a real timing.SerialEngine, in three delivery modes (requests made between
-RunUntil calls; from env events scheduled up front; from chained env events).  The driver returns the log of
+RunUntil calls; from env events scheduled up front; from chained env events) and three notification variants
+(NotifyRecv / NotifyPortFree called directly; produced by a real loop-back port of the component; delivered by
+another goroutine while the processor is parked inside Process).  A dispatch of the model carries what happens WHILE
+the processor runs: wake requests and notifications.  The same situation is also run on a real timing.ParallelEngine
+(another handler of the same instant notifies while the processor runs).  The driver returns the log of
 requests / notifications / processor invocations in the order they happened; the oracle below applies the rules of
 the abstract layer to that log.  The number and the times of processor runs are NOT compared with the model: extra
 (spurious) runs are free, only a run later than a deadline or a missing run is a contradiction.
@@ -22,11 +26,16 @@ TECHNIQUE = ("TLA+ (abstract obligations + model of the dedup guard and event qu
              "two mutant controls; complete transition graph replayed as input histories on a real EventDrivenComponent "
              "+ SerialEngine in three delivery modes; processor invocation log judged by the abstract layer's rules")
 LEVEL_TEXT = ("TLC explores all interleavings of the bounded model; every transition of its graph and seeded random walks "
-              "are replayed on the real component and engine; the verdict is computed from the real invocation times only.")
-LEVEL_NOTE = ("Times are small integers (picoseconds 0..MaxT+MaxD); the serial engine only; checkpoint restore of the guard "
-              "is outside this property.")
+              "are replayed on the real component and serial engine (3 delivery modes x 3 notification variants, incl. "
+              "notifications that arrive while the processor runs), plus scripted overlap scenarios on the real parallel "
+              "engine; the verdict is computed from the real invocation times only.")
+LEVEL_NOTE = ("Times are small integers (picoseconds 0..MaxT+MaxD); the parallel engine is exercised with a fixed family of "
+              "gated overlap scenarios, not with the whole graph; checkpoint restore of the guard is outside this property.")
 
-MODES = ["outside", "inside", "chain"]
+# (delivery mode, notification variant) pairs replayed; see the driver for their meaning
+COMBOS_Q = [("outside", "direct"), ("inside", "port"), ("chain", "gate")]
+COMBOS_T = [("outside", "direct"), ("inside", "port"), ("chain", "gate"), ("inside", "direct"), ("chain", "port"), ("outside", "gate")]
+REQUEST_KINDS = ("req", "inreq", "notify_recv", "notify_free", "in_notify_recv", "in_notify_free")
 
 
 def judge(log):
@@ -39,7 +48,7 @@ def judge(log):
             return ("late", d[1], d[0], at, i)
         if kind == "run":
             due = []
-        elif kind in ("req", "inreq", "notify_recv", "notify_free"):
+        elif kind in REQUEST_KINDS:
             if t < at:
                 raise core.Broken("driver made a request in the past: %r" % (log[i],))
             due.append((t, kind, i))
@@ -76,9 +85,10 @@ def _selftest():
     late = [["req", 0, 1], ["run", 2, 0], ["end", 2, 0]]
     missing = [["req", 0, 1], ["run", 1, 0], ["inreq", 1, 3], ["end", 1, 0]]
     before = [["run", 1, 0], ["notify_recv", 1, 1], ["end", 1, 0]]      # a run BEFORE the notification does not count
+    during = [["req", 0, 1], ["run", 1, 0], ["in_notify_free", 1, 1], ["end", 1, 0]]   # nor does the run it arrives in
     spurious = [["req", 0, 3], ["run", 0, 0], ["run", 1, 0], ["run", 3, 0], ["end", 3, 0]]
     if judge(ok) or judge(spurious) or (judge(late) or [0])[0] != "late" or (judge(missing) or [0])[0] != "missing" \
-            or (judge(before) or [0])[0] != "missing":
+            or (judge(before) or [0])[0] != "missing" or (judge(during) or [0])[0] != "missing":
         raise core.Broken("the C13 oracle fails its self-test")
 
 
@@ -87,7 +97,7 @@ def run(ck):
     _selftest()
     g, r = objcheck.graph_from_tlc(ck, ["tick"], "EventDriven", "EventDriven_q.cfg" if q else "EventDriven_t.cfg",
                                    workers=4 if q else 8, timeout=1200)
-    for cfg in ("EventDriven_control1.cfg", "EventDriven_control2.cfg")[:1 if q else 2]:
+    for cfg in (("EventDriven_control3.cfg",) if q else ("EventDriven_control1.cfg", "EventDriven_control2.cfg", "EventDriven_control3.cfg")):
         rc = ck.run_tlc(["tick"], "EventDriven", cfg, workers=2, timeout=300)
         if rc.ok or rc.violated != "WakeNoLaterThan":
             raise core.Broken("control %s: TLC did not refute WakeNoLaterThan for the mutated guard (ok=%s violated=%s)" % (
@@ -96,16 +106,18 @@ def run(ck):
     ck.cov["rule"] = ("TLC enumerates the complete graph of EventDriven.tla (requests now+0..MaxD from outside and up to MaxReq "
                       "per processor run, both notifications, dispatches, clock ticks; <= MaxEv queued wakeups) and checks "
                       "WakeNoLaterThan and the guard invariants; every transition (edge cover) and seeded random walks are "
-                      "replayed on a real EventDrivenComponent + SerialEngine in 3 delivery modes; the log of processor "
+                      "replayed on a real EventDrivenComponent + SerialEngine in 3 delivery modes and 3 notification variants "
+                      "(direct call, real loop-back port, another goroutine while the processor is parked), notifications "
+                      "inside a processor run included, plus overlap scenarios on a real ParallelEngine; the log of processor "
                       "invocations is judged by the abstract rules (late / missing run). Non-trivial = distinct history with a "
                       "request while another wakeup is pending, or a request made by the processor.")
-    ck.assumptions += ["serial engine; one component; requests are never in the past (the statement excludes them)",
+    ck.assumptions += ["one component; requests are never in the past (the statement excludes them)",
                        "a notification's deadline is the instant it is delivered at",
                        "extra processor runs are allowed"]
 
     hs = g.edge_cover(rng=ck.rng)
     n_cover = len(hs)
-    walks, wl = (300, 40) if q else (4000, 80)
+    walks, wl = (300, 40) if q else (2000, 60)
     hs += g.random_walks(ck.rng, walks, wl)
 
     def nontrivial(h):
@@ -114,7 +126,7 @@ def run(ck):
         for s in h["steps"]:
             a = s["a"]
             if a["op"] == "dispatch" and a["reqs"]:
-                return True
+                return True      # a request or a notification while the processor runs
             if a["op"] in ("req", "notify_recv", "notify_free") and pend != nowake:
                 return True
             pend = s["t"]["pending"]
@@ -132,32 +144,72 @@ def run(ck):
     total_entries = runs = 0
     found = 0
     accepted, rejected = [], []
-    for mode in MODES:
+    combos = COMBOS_Q if q else COMBOS_T
+    in_run_notes = n_replayed = 0
+    hs_all = hs
+    for ci, (mode, notify) in enumerate(combos):
         B = 5000
+        cfgd = {"mode": mode, "notify": notify}
+        # the complete edge cover for the first combination; a seeded sample of it (+ all walks) for the others when it is large
+        hs = hs_all if (ci == 0 or n_cover <= 6000) else ck.rng.sample(hs_all[:n_cover], 6000) + hs_all[n_cover:]
+        n_replayed += len(hs)
         for i in range(0, len(hs), B):
-            out = core.harness(binary, "eventdriven", {"config": {"mode": mode}, "histories": hs[i:i + B]})
+            out = core.harness(binary, "eventdriven", {"config": cfgd, "histories": hs[i:i + B]})
             for j, (log, err) in enumerate(zip(out["logs"], out["errors"])):
                 h = hs[i + j]
                 ops = [s["a"] for s in h["steps"]]
-                rp = {"driver": "eventdriven", "config": {"mode": mode}, "history": {"init": h["init"], "steps": h["steps"]}, "log": log}
+                rp = {"driver": "eventdriven", "config": cfgd, "history": {"init": h["init"], "steps": h["steps"]}, "log": log}
                 total_entries += len(log or [])
+                in_run_notes += sum(1 for e in log or [] if e[0].startswith("in_notify"))
                 runs += sum(1 for e in log or [] if e[0] == "run")
                 if err:
-                    rejected.append((0, {"what": "panic", "mode": mode}, "replaying %s (%s): %s" % (ops, mode, err), rp, None))
+                    rejected.append((0, {"what": "panic", "mode": mode, "notify": notify}, "replaying %s (%s/%s): %s" % (ops, mode, notify, err), rp, None))
                     continue
                 v = judge(log)
                 if v:
                     what, src, deadline, at, idx = v
-                    desc = ("%s run: a %s for time %d is followed by %s (mode %s); log %s" % (
+                    desc = ("%s run: a %s for time %d is followed by %s (mode %s/%s); log %s" % (
                         what, src, deadline,
                         ("an entry at time %d with no processor run in between" % at) if what == "late" else "the end of the simulation without a run",
-                        mode, log[:idx + 1]))
-                    rejected.append((len(log), {"what": what, "source": src, "mode": mode}, desc, rp, log))
+                        mode, notify, log[:idx + 1]))
+                    rejected.append((len(log), {"what": what, "source": src, "mode": mode, "notify": notify}, desc, rp, log))
                 else:
                     accepted.append(log)
         ck.cov["traces_validated_against_impl"] += len(hs)
+    # the situation "another handler of the same instant notifies while the processor runs" on a real ParallelEngine
+    scen = []
+    for T in (0, 1, 3):
+        for notes in ([100], [101], [100, 101], [101, 100, 100]):
+            for script in ([], [[1]], [[0], [101]], [[100, 2], [0]], [[2, 0], [100]]):
+                for nv in ("direct", "port"):
+                    scen.append({"t": T, "notes": notes, "script": script, "notify": nv})
+    if q:
+        scen = ck.rng.sample(scen, 40)
+    out = core.harness(binary, "eventdriven_parallel", {"scenarios": scen}, timeout=600)
+    overlapped = sum(1 for o in out["overlap"] if o)
+    ck.cov["parallel_engine_scenarios"] = {"run": len(scen), "notification_arrived_during_the_run": overlapped}
+    if overlapped < len(scen) // 2:
+        raise core.Broken("parallel-engine scenarios: only %d of %d had the notification overlap the processor run" % (overlapped, len(scen)))
+    ck.cov["traces_validated_against_impl"] += len(scen)
+    for sc, log, err in zip(scen, out["logs"], out["errors"]):
+        rp = {"driver": "eventdriven_parallel", "scenario": sc, "log": log}
+        total_entries += len(log or [])
+        runs += sum(1 for e in log or [] if e[0] == "run")
+        in_run_notes += sum(1 for e in log or [] if e[0].startswith("in_notify"))
+        if err:
+            rejected.append((0, {"what": "panic", "mode": "parallel_engine", "notify": sc["notify"]}, "parallel engine scenario %s: %s" % (sc, err), rp, None))
+            continue
+        v = judge(log)
+        if v:
+            what, src, deadline, at, idx = v
+            rejected.append((len(log), {"what": what, "source": src, "mode": "parallel_engine", "notify": sc["notify"]},
+                             "%s run on the parallel engine: a %s for time %d is not followed by a processor run in time; scenario %s; log %s" % (
+                                 what, src, deadline, sc, log[:idx + 1]), rp, log))
+        else:
+            accepted.append(log)
+    ck.cov["notifications_during_a_run"] = in_run_notes
     # the same judgement by TLC (EventDrivenTrace.tla): all accepted logs (bounded), and the shortest rejected ones
-    budget = 12000 if q else 300000
+    budget = 12000 if q else 150000
     part, size = [], 0
     ck.rng.shuffle(accepted)
     for log in accepted:
@@ -180,22 +232,28 @@ def run(ck):
     ck.cov["processor_runs_observed"] = runs
     for h in hs[:1] + hs[n_cover:n_cover + 1]:
         ck.sample({"ops": [[s["a"]["op"], s["a"]["d"], s["a"]["reqs"]] for s in h["steps"]][:14]})
-    ck.note("replayed %d histories (%d edge-cover + %d walks) x %d modes: %d log entries (%d also judged by TLC), %d processor runs, "
-            "%d contradictions" % (len(hs), n_cover, len(hs) - n_cover, len(MODES), total_entries, n_tlc, runs, found))
+    hs = hs_all
+    ck.cov["histories_replayed"] = n_replayed
+    ck.note("%d histories (%d edge-cover + %d walks), %d replays over %d mode/notify combinations (+%d parallel-engine scenarios): %d log entries (%d also judged by TLC), %d processor runs, "
+            "%d contradictions" % (len(hs), n_cover, len(hs) - n_cover, n_replayed, len(combos), len(scen), total_entries, n_tlc, runs, found))
 
 
 def replay(ck, doc):
     """Re-run a recorded contradiction (replays/C13-*.json) on the real component."""
     rp = doc["replay"]
-    out = core.harness(ck.binary("timingmisc"), "eventdriven", {"config": rp["config"], "histories": [rp["history"]]})
+    if rp.get("driver") == "eventdriven_parallel":
+        out = core.harness(ck.binary("timingmisc"), "eventdriven_parallel", {"scenarios": [rp["scenario"]]})
+        rp = dict(rp, config={"mode": "parallel_engine", "notify": rp["scenario"]["notify"]})
+    else:
+        out = core.harness(ck.binary("timingmisc"), "eventdriven", {"config": rp["config"], "histories": [rp["history"]]})
     log, err = out["logs"][0], out["errors"][0]
     ck.cov["traces_validated_against_impl"] += 1
     ck.cov["rule"] = "replay of a recorded history"
     if err:
-        ck.report({"what": "panic", "mode": rp["config"]["mode"]}, err, dict(rp, log=log))
+        ck.report({"what": "panic", "mode": rp["config"]["mode"], "notify": rp["config"].get("notify", "direct")}, err, dict(rp, log=log))
         return
     v = judge(log)
     if v:
-        ck.report({"what": v[0], "source": v[1], "mode": rp["config"]["mode"]},
+        ck.report({"what": v[0], "source": v[1], "mode": rp["config"]["mode"], "notify": rp["config"].get("notify", "direct")},
                   "%s run: a %s for time %d is not followed by a processor run in time; log %s" % (v[0], v[1], v[2], log[:v[4] + 1]),
                   dict(rp, log=log))
